@@ -518,7 +518,7 @@ func (q *PathQ) Reach(from Site, startFact uint64, target func(ssa.Instruction) 
 					}
 					if bt, ok := ph.Type().Underlying().(*types.Basic); ok && bt.Info()&types.IsBoolean != 0 {
 						nm = pushMemo(nm, ph, 0, ph.Edges[pi], nil)
-					} else if nilTestedPhi(ph) {
+					} else if nilTestedPhi(ph) || (nilable(ph.Type()) && c.nilTests(ph) >= 1) {
 						// a pointer/interface variable that is later compared with nil: remember which value it took
 						nm = pushMemo(nm, ph, 0, ph.Edges[pi], nil)
 					}
